@@ -19,7 +19,7 @@ func init() {
 		Technique:   "fault enumeration inside the explorer: every transport operation (SetWriteDeadline, Write) of every explored write program is a choice point with answers {ok, error, timeout, short write, zero write}; invalid requests at every position; deadlines compared at every transport Write",
 		Rule:        "same write-program space as C01 (core product complete) with a fault choice at every transport operation index (one fault per execution: after it the property demands fail-stop), an invalid-request choice (13 kinds x 3 positions) and deadline choices; non-trivial = at least one transport operation and a non-default choice; distinct by observation hash",
 		Assumptions: []string{"a single fault per execution (later faults cannot be observed by a fail-stopped connection)", "wire prefix judged by ref/wsref in partial mode"},
-		Budget:      map[string]time.Duration{"quick": 100 * time.Second, "thorough": 25 * time.Minute},
+		Budget:      map[string]time.Duration{"quick": 100 * time.Second, "thorough": 40 * time.Minute},
 		Bound:       map[string]string{"quick": "deviations <= 2 (a fault is one deviation), <= 2 messages", "thorough": "deviations <= 2 over the whole product (3 messages, all boundary sizes), <= 3 on a sub-lattice (B in {125,300}, every fourth size)"},
 		Scenarios:   func(tier string) []*explore.Scenario { return wScenarios("c10", tier, c10Body) },
 	})
